@@ -54,6 +54,7 @@ type c13case struct {
 	spec []byte // parsed document
 	raw  []byte
 	dne  bool
+	pre  []byte // content embedded by an earlier run into the same directory (nil: fresh directory)
 }
 
 // fixtureSpecs returns the repository's own spec files (real YAML documents).
@@ -107,11 +108,21 @@ func C13(run *report.Run) {
 				cases = append(cases, c13case{id: "fixture:" + n + ":" + fn, spec: orig, raw: raw, dne: dne})
 			}
 		}
+		// the same document embedded after another physical form of it was embedded into the same directory
+		// (the forms differ in white space only: line terminators, final newline)
+		for _, pair := range [][2]string{{"crlf", "asis"}, {"asis", "crlf"}, {"asis", "notnl"}, {"notnl", "asis"}} {
+			if !bytes.Equal(forms[pair[0]], forms[pair[1]]) {
+				cases = append(cases, c13case{id: "fixture:" + n + ":" + pair[1] + "-after-" + pair[0], spec: orig, raw: forms[pair[1]], pre: forms[pair[0]], dne: true})
+			}
+		}
 	}
 	jobs := make([]*genrun.Job, len(cases))
 	for i, c := range cases {
 		jobs[i] = &genrun.Job{ID: fmt.Sprintf("s%06d", i), Spec: c.spec, Raw: c.raw, RawSet: true, OutDir: filepath.Join(env.Scratch, "gen", fmt.Sprintf("s%06d", i)),
 			Package: "gen", DoNotEdit: c.dne, Static: true, SpecConst: true}
+		if c.pre != nil {
+			jobs[i].Pre = &genrun.Job{Spec: c.spec, Raw: c.pre, RawSet: true, Package: "gen", DoNotEdit: c.dne}
+		}
 	}
 	var judged, ok int64
 	classes := map[string]int{}
@@ -213,6 +224,19 @@ func C13(run *report.Run) {
 				span = 700
 			}
 			special := [][]byte{{'\\'}, {'"'}, {'`'}, {'\t'}, {0x7f}, []byte("é"), {'\\', '\\'}, []byte("\\n"), {'\r'}}
+			// the same around every power-of-two length up to 8 KiB (16 KiB thorough), where a wrapped or
+			// buffered literal would be cut
+			maxPow := 8192
+			if run.Tier == "thorough" {
+				maxPow = 16384
+			}
+			for b := 512; b <= maxPow; b *= 2 {
+				for _, u := range special {
+					for off := b - 14; off <= b+2; off++ {
+						long = append(long, append(append(bytes.Repeat([]byte{'a'}, off), u...), bytes.Repeat([]byte{'a'}, 24)...))
+					}
+				}
+			}
 			for _, u := range special {
 				for off := 0; off <= span; off++ {
 					line := append(append(bytes.Repeat([]byte{'a'}, off), u...), bytes.Repeat([]byte{'a'}, span+20-off)...)
@@ -256,6 +280,6 @@ func C13(run *report.Run) {
 	run.Cov["outcome_classes"] = classes
 	run.Cov["equal"] = ok
 	run.Cov["alphabet"] = fmt.Sprintf("%q", c13Alphabet)
-	run.Cov["rule"] = "state = one spec-file content (every byte string over the alphabet up to the length bound; every repository spec in as-is / CRLF / no-trailing-newline / one-line-JSON form; long lines with one escape-needing unit at every offset) × donotedit; transition = generate, compile spec_file.go with go/types, evaluate the SpecFile constant, compare with the input"
+	run.Cov["rule"] = "state = one spec-file content (every byte string over the alphabet up to the length bound; every repository spec in as-is / CRLF / no-trailing-newline / one-line-JSON form, also after another of these forms was embedded into the same directory; long lines with one escape-needing unit at every offset) × donotedit; transition = generate, compile spec_file.go with go/types, evaluate the SpecFile constant, compare with the input"
 	c13Served(run, env)
 }
